@@ -316,6 +316,32 @@ fn all_pending_scenarios() -> Vec<String> {
 }
 
 // ------------------------------------------------------------------ family: ids
+/// the key-id map survives snapshot_keys + reload unchanged (what a clean restart with a valid oplog relies on)
+fn scenario_keymap(sc: &str) -> Result<Violations, String> {
+    use nundb::disk_ops::*;
+    let names: Vec<&str> = sc.split(',').filter(|x| !x.is_empty()).collect();
+    let dir = std::env::var("NUN_DBS_DIR").map_err(|_| "NUN_DBS_DIR not set")?;
+    let _ = std::fs::remove_file(format!("{}/keys-nun.keys", dir));
+    let mut km: HashMap<String, u64> = HashMap::new();
+    for (i, n) in names.iter().enumerate() { km.insert(n.to_string(), i as u64); }
+    let (s1, r1): (Sender<String>, Receiver<String>) = channel(10);
+    let (s2, r2): (Sender<String>, Receiver<String>) = channel(10);
+    std::mem::forget(r1); std::mem::forget(r2);
+    let dbs = Arc::new(Databases::new("u".into(), "p".into(), "".into(), "".into(), s1, s2, km.clone(), 1, false));
+    let mut v: Violations = vec![];
+    if catch_unwind(AssertUnwindSafe(|| snapshot_keys(&dbs))).is_err() { v.push("C10.safety".into()); return Ok(v); }
+    let loaded = load_keys_map_from_disk();
+    let same = loaded.len() == km.len() && km.iter().all(|(k, id)| loaded.get(k) == Some(id));
+    for l in ["C16.keymap-roundtrip", "C16.key-ids-wf", "C16.key-fresh", "C16.key-known"] { chk(&mut v, l, same); }
+    // and the reverse map built at start-up agrees with it
+    let ok_rev = { let ik = dbs.id_keys_map.read().unwrap(); km.iter().all(|(k, id)| ik.get(id) == Some(k)) };
+    chk(&mut v, "C16.key-ids-wf", ok_rev);
+    Ok(v)
+}
+fn all_keymap_scenarios() -> Vec<String> {
+    vec!["", "a", "a,b", "a,$$user_jose,b", "$$token,a", "a,b,$$permission_$x", "k1,k2,k3,k4,$$secret,k5"].into_iter().map(|x| x.to_string()).collect()
+}
+
 fn scenario_ids(sc: &str) -> Result<Violations, String> {
     // sc = comma separated ids of pre-existing databases, e.g. "2" or "1,3"
     let dbs = mk_dbs();
@@ -768,7 +794,7 @@ fn all_lines_scenarios() -> Vec<String> {
         "set-permissions", "snapshot", "election", "election candidate", "election win", "ack", "rp", "replicate", "replicate-remove", "replicate-increment", "replicate-since",
         "replicate-snapshot", "resolve", "debug", "arbiter", "cluster-state", "metrics-state", "list-commands", "set-primary", "set-secoundary", "nosuch", ""];
     let args = ["", " ", "x", "x y", "x 2147483647 v", "x -2147483648 v", "x -2 v", "k 2147483647", "k -2147483648", "18446744073709551616 s", "340282366920938463463374607431768211456 n",
-        "x y z w v", "$$token", "a;b", "é ü", "d k"];
+        "x y z w v", "$$token", "a;b", "é ü", "d k", "1 nosuch k 0 v", "1 d secret 0 v", "1 $admin k 0 v", "nosuch tok", "nosuch k -1 v", "nosuch k"];
     let mut out = vec![];
     for w in words { for a in args { let l = format!("{} {}", w, a); out.push(l.trim_end().to_string()); out.push(format!("A:{}", l.trim_end())); } }
     out.sort(); out.dedup();
@@ -784,7 +810,8 @@ fn families() -> Vec<(&'static str, fn() -> Vec<String>, fn(&str) -> Result<Viol
          ("oplog", all_oplog_scenarios, scenario_oplog), ("session", all_session_scenarios, scenario_session),
          ("arbiter", all_arbiter_scenarios, scenario_arbiter), ("lines", all_lines_scenarios, scenario_lines),
          ("watch", all_watch_scenarios, scenario_watch), ("flood", all_flood_scenarios, scenario_flood),
-         ("connections", all_connections_scenarios, scenario_connections)]
+         ("connections", all_connections_scenarios, scenario_connections),
+         ("keymap", all_keymap_scenarios, scenario_keymap)]
 }
 
 fn main() {
